@@ -37,6 +37,7 @@ func init() {
 			{Pkg: wtxmgrPkg, Fn: "ZzC02U4L3", Tiers: "qt", Reach: []string{"c02-end", "reorg"}, Bound: "U4 (coinbase CB, S spends CB:0, S2 spends S:0), histories of 3 events"},
 			{Pkg: wtxmgrPkg, Fn: "ZzC02U7L3", Tiers: "qt", Reach: []string{"c02-end", "reorg"}, Bound: "U7 (coinbase: foreign output 0, credit at index 1, spenders of both), 3 events"},
 			{Pkg: wtxmgrPkg, Fn: "ZzC02U8L3", Tiers: "qt", Reach: []string{"c02-end", "reorg"}, Bound: "U8 (descendant through a non-credit output; conflicting P'), 3 events"},
+			{Pkg: wtxmgrPkg, Fn: "ZzC02U5L3", Tiers: "qt", Reach: []string{"c02-end", "reorg"}, Bound: "U5 (B spends both credits of A: a spender with two debits), 3 events"},
 			{Pkg: wtxmgrPkg, Fn: "ZzC02U9P3L2", Tiers: "t", Reach: []string{"c02-end", "reorg"}, Bound: "U9 after the preamble 'A confirmed, B and conflicting B' both unconfirmed', 2 events"},
 			{Pkg: wtxmgrPkg, Fn: "ZzC02U1zL3", Tiers: "t", Reach: []string{"c02-end"}, Bound: "U1 with amounts of the first transaction allowed to be zero, 3 events"},
 			{Pkg: wtxmgrPkg, Fn: "ZzC02U1L3", Tiers: "t", Reach: []string{"c02-end"}, Bound: "U1 chain, 3 events"},
@@ -175,7 +176,7 @@ func init() {
 			{Pkg: walletPkg, Fn: "ZzC16HorizonW2", Tiers: "qt", NoNative: true, Reach: []string{"c16-end", "invalid-child", "jump"}, Bound: "window 2, 2 rounds"},
 			{Pkg: walletPkg, Fn: "ZzC16HorizonW3", Tiers: "qt", NoNative: true, Reach: []string{"c16-end", "invalid-child", "jump"}, Bound: "window 3, 2 rounds"},
 			{Pkg: walletPkg, Fn: "ZzC16HorizonResume", Tiers: "qt", NoNative: true, Reach: []string{"c16-end"}, Bound: "window 2, resumed recovery starting at index 7"},
-			{Pkg: walletPkg, Fn: "ZzC16RecoveryW2B2", Tiers: "qt", Reach: []string{"c16-end", "resumed", "spend-with-change", "two-receipts-in-a-block", "receipt-spent-in-the-same-block", "spend-without-change"}, Bound: "the real recovery loop (Wallet.recovery, RecoveryManager incl. Resurrect, real address manager, transaction store and chain.BlockFilterer) on a wallet restored from the seed, window 2: every chain of 2 blocks whose content is chosen from {external receipt, internal receipt, two external receipts, spend of an earlier output with or without internal change, a receipt swept out of the wallet later in the same block}, every index inside the window, optionally a first recovery session after block 1 (the final run resumes)"},
+			{Pkg: walletPkg, Fn: "ZzC16RecoveryW2B2", Tiers: "qt", Reach: []string{"c16-end", "resumed", "spend-with-change", "two-receipts-in-a-block", "receipt-spent-in-the-same-block", "spend-without-change", "two-wallet-outputs-in-one-transaction", "payment-at-or-below-the-highest-index"}, Bound: "the real recovery loop (Wallet.recovery, RecoveryManager incl. Resurrect, real address manager, transaction store and chain.BlockFilterer) on a wallet restored from the seed, window 2: every chain of 2 blocks whose content is chosen from {external receipt, internal receipt, two external receipts, spend of an earlier output with or without internal change, a receipt swept out of the wallet later in the same block, one transaction paying an external and an internal address, a payment to an index at or below the highest paid so far (reuse / gap)}, every index inside the window, optionally a first recovery session after block 1 (the final run resumes)"},
 			{Pkg: walletPkg, Fn: "ZzC16RecoveryW2B3", Tiers: "t", Reach: []string{"c16-end", "resumed", "spend-with-change"}, Bound: "window 2, chains of 3 blocks, a session may end after each of the first two"},
 			{Pkg: walletPkg, Fn: "ZzC16RecoveryW3B3", Tiers: "t", Reach: []string{"c16-end", "resumed"}, Bound: "window 3, chains of 3 blocks"},
 			{Pkg: walletPkg, Fn: "ZzC16HorizonW3R3", Tiers: "t", NoNative: true, Reach: []string{"c16-end"}, Bound: "window 3, 3 rounds"},
@@ -254,7 +255,7 @@ func init() {
 	reg(&propDef{
 		ID: "C04",
 		Runs: []hrun{
-			{Pkg: waddrmgrPkg, Fn: "ZzC04", Tiers: "qt", NoWitness: true, Reach: []string{"c04-end", "created", "imported", "passphrase-changed", "root-key-neutered", "post-conversion-content-scanned"}, Bound: "one operation order: create, open, unlock, 3 addresses, import private key + secret P2SH script + secret witness script, new account, private passphrase change, [neuter the root key], convert to watching-only (afterwards no stored field may open under the master key or the private crypto key), reopen; both passphrases, the new passphrase and both secret scripts SYMBOLIC; every window of every key/value ever written compared with 40+ secrets (and, until imports, public material)"},
+			{Pkg: waddrmgrPkg, Fn: "ZzC04", Tiers: "qt", NoWitness: true, Reach: []string{"c04-end", "created", "imported", "passphrase-changed", "root-key-neutered", "post-conversion-content-scanned", "taproot-address-issued"}, Bound: "one operation order: create, open, unlock, a taproot address (32-byte address id), 3 addresses, import private key + secret P2SH script + secret witness script, new account, private passphrase change, [neuter the root key], convert to watching-only (afterwards no stored field may open under the master key or the private crypto key), reopen, import of a private key into the reopened watching-only wallet; both passphrases, the new passphrase and both secret scripts SYMBOLIC; every window of every key/value ever written compared with 40+ secrets (and, until imports, public material)"},
 			{Pkg: waddrmgrPkg, Fn: "ZzC04RaceB2", Tiers: "qt", Sched: true, NoWitness: true, Reach: []string{"c04-end", "import-refused", "import-succeeded"}, Bound: "ImportPrivateKey concurrent with Manager.Lock, every interleaving of their synchronisation operations with at most 2 preemptions: the key is refused or sealed under the real crypto key, never under the zeroed one"},
 		},
 		Assume: append([]string{
@@ -318,6 +319,8 @@ func init() {
 			{Pkg: walletPkg, Fn: "ZzC09B2", Tiers: "qt", Sched: true, Reach: []string{"c09-end"}, Bound: "NewAddress/NewChangeAddress pairs, at most 2 preemptions"},
 			{Pkg: walletPkg, Fn: "ZzC09B2All", Tiers: "t", Sched: true, Reach: []string{"c09-end"}, Bound: "all 9 pairs, at most 2 preemptions"},
 			{Pkg: walletPkg, Fn: "ZzC09B1Six", Tiers: "qt", Sched: true, Reach: []string{"c09-end", "spending-caller", "dry-run-caller"}, Bound: "all 36 pairs from {NewAddress, NewChangeAddress, CurrentAddress, txToOutputs needing change, FundPsbt with a supplied input needing change, ImportAccountDryRun of a foreign account key into the same key scope} - all six newAddrMtx sites (funded watching-only wallet for the spending callers), at most 1 preemption"},
+			{Pkg: walletPkg, Fn: "ZzC09B1Imported", Tiers: "qt", Sched: true, Reach: []string{"c09-end", "spending-caller"}, Bound: "a transaction spending the coin of an IMPORTED key (its change address is issued from account 0) concurrent with NewChangeAddress(0) (both orders), txToOutputs from account 0, FundPsbt: at most 1 preemption"},
+			{Pkg: walletPkg, Fn: "ZzC09B2Imported", Tiers: "t", Sched: true, Reach: []string{"c09-end", "spending-caller"}, Bound: "6 pairs with the imported-account spender, at most 2 preemptions"},
 			{Pkg: walletPkg, Fn: "ZzC09B2Six", Tiers: "t", Sched: true, Reach: []string{"c09-end", "spending-caller", "dry-run-caller"}, Bound: "all 36 pairs, at most 2 preemptions"},
 		},
 		Assume: append([]string{
